@@ -121,7 +121,7 @@ def run(ctx):
         for a in EXPS:
             for b in EXPS:
                 r = mag.run(fn, [mag.binade(a), mag.binade(b)])
-                if r in (mag.NAN, mag.INF) or (r[0] == 'm' and r[1] >= 1):
+                if mag.out_of_unit_interval(r):
                     worst.append((a, b, r))
                 if r != mag.TOP:
                     decided += 1
